@@ -115,6 +115,17 @@ theorem nondestructive_only_allocates {h h' : Heap} {op : Op} {res : Ref}
         simp [hx, hy, bind, Except.bind] at hr
         obtain ⟨ext, he⟩ := allocList_grows h (vMapcar2 (carsOf h as) (carsOf h bs)) .nil
         exact ⟨ext, by rw [← he, hr]⟩
+  | concat x y =>
+    unfold run at hr
+    cases hx : chainOf h x with
+    | error e => simp [hx, bind, Except.bind] at hr
+    | ok as =>
+      cases hy : chainOf h y with
+      | error e => simp [hx, hy, bind, Except.bind] at hr
+      | ok bs =>
+        simp [hx, hy, bind, Except.bind] at hr
+        obtain ⟨ext, he⟩ := allocList_grows h (carsOf h as ++ carsOf h bs) .nil
+        exact ⟨ext, by rw [← he, hr]⟩
   | rplaca x v => simp [Op.destructive] at hnd
   | setNth n x v => simp [Op.destructive] at hnd
   | rplacd x y => simp [Op.destructive] at hnd
@@ -180,6 +191,7 @@ theorem destructive_writes_within_footprint {h h' : Heap} {op : Op} {res : Ref}
   | remove p x => simp [Op.destructive] at hd
   | mapcar f x => simp [Op.destructive] at hd
   | mapcar2 x y => simp [Op.destructive] at hd
+  | concat x y => simp [Op.destructive] at hd
   | rplaca x v =>
     unfold run at hr
     cases hx : chainOf h x with
@@ -438,6 +450,7 @@ theorem extending_writes_only_nil_cdrs {h h' : Heap} {op : Op} {res : Ref}
     | remove p x => simp [Op.destructive] at hd
     | mapcar f x => simp [Op.destructive] at hd
     | mapcar2 x y => simp [Op.destructive] at hd
+    | concat x y => simp [Op.destructive] at hd
     | rplaca x v => simp [Op.extending] at hx
     | setNth n x v => simp [Op.extending] at hx
     | rplacd x y => simp [Op.extending] at hx
@@ -474,6 +487,94 @@ example :
       ∧ contents h 3 (.cell 0) = some [2]
       ∧ contents [⟨2, .cell 2⟩, ⟨1, .cell 0⟩, ⟨7, .nil⟩] 4 (.cell 0) = some [2, 7] := by
   refine ⟨by rfl, by rfl, by rfl⟩
+
+/-! ## an empty list owns no cells -/
+
+/-- An empty list owns no cells: a reference whose list is empty is `nil`. -/
+theorem empty_list_owns_no_cell {h : Heap} {n : Nat} {r : Ref} (hc : contents h n r = some []) : r = .nil := by
+  unfold contents at hc
+  cases hch : chain h n r with
+  | none => simp [hch] at hc
+  | some as =>
+    simp [hch] at hc
+    have hl := carsOf_length (chain_lt hch)
+    rw [hc] at hl
+    have : as = [] := by
+      cases as with
+      | nil => rfl
+      | cons a t => simp at hl
+    subst this
+    exact (refOf_chain hch).symm
+
+theorem chainOf_nil (h : Heap) : chainOf h .nil = .ok [] := by simp [chainOf, chain_nil]
+
+/-- …so its footprint is empty and no variable is entitled to change when it is extended -/
+theorem empty_list_no_footprint {h : Heap} {n : Nat} {x : Ref} (hc : contents h n x = some [])
+    (vs : List Val) : footprint h (.add x vs) = [] := by
+  have := empty_list_owns_no_cell hc
+  subst this
+  simp [footprint, Op.destructive, Op.listArgs, chainOf_nil]
+
+/-- **extending an empty list changes nothing else.** When the (first) list argument of an extending
+    operation `add nconc append push cons list*` is empty — the result of `(subseq a i i)`, of a
+    `remove` of everything, of `butlast` of a singleton, of `nthcdr` to the end, … — the operation only
+    allocates: every existing cell, list and printed value is unchanged.  (An empty list that still
+    carried a claim on storage of another list, such as a zero-length slice with capacity, has no
+    counterpart in the model: any effect on another variable is a violation.) -/
+theorem extending_empty_changes_nothing {h h' : Heap} {op : Op} {res x : Ref}
+    (hx : op.extending = true) (ha : op.listArgs.head? = some x)
+    {k : Nat} (he : contents h k x = some []) (hr : run h op = .ok (h', res)) :
+    (∃ ext, h' = h ++ ext) ∧
+      ∀ {n : Nat} {r : Ref} {as : List Nat}, chain h n r = some as →
+        chain h' n r = some as ∧ carsOf h' as = carsOf h as := by
+  have hnil := empty_list_owns_no_cell he
+  subst hnil
+  have hgrow : ∃ ext, h' = h ++ ext := by
+    cases hd : op.destructive with
+    | false => exact nondestructive_only_allocates hd hr
+    | true =>
+      cases op with
+      | nconc x' y =>
+        simp [Op.listArgs] at ha; subst ha
+        unfold run at hr
+        cases hcy : chainOf h y with
+        | error e => simp [chainOf_nil, hcy, bind, Except.bind] at hr
+        | ok bs =>
+          simp [chainOf_nil, hcy, bind, Except.bind] at hr
+          exact ⟨[], by simp [hr.1]⟩
+      | add x' vs =>
+        simp [Op.listArgs] at ha; subst ha
+        unfold run at hr
+        simp [chainOf_nil, bind, Except.bind] at hr
+        obtain ⟨ext, hext⟩ := allocList_grows h vs .nil
+        exact ⟨ext, by rw [← hr.1, hext]⟩
+      | lit vs => simp [Op.destructive] at hd
+      | alias x => simp [Op.destructive] at hd
+      | cons v x => simp [Op.destructive] at hd
+      | listStar v w x => simp [Op.destructive] at hd
+      | append x y => simp [Op.destructive] at hd
+      | nthcdr n x => simp [Op.destructive] at hd
+      | last n x => simp [Op.destructive] at hd
+      | member p key x => simp [Op.destructive] at hd
+      | butlast n x => simp [Op.destructive] at hd
+      | subseq s e x => simp [Op.destructive] at hd
+      | copyList x => simp [Op.destructive] at hd
+      | reverse x => simp [Op.destructive] at hd
+      | remove p x => simp [Op.destructive] at hd
+      | mapcar f x => simp [Op.destructive] at hd
+      | mapcar2 x y => simp [Op.destructive] at hd
+      | concat x y => simp [Op.destructive] at hd
+      | rplaca x v => simp [Op.extending] at hx
+      | setNth n x v => simp [Op.extending] at hx
+      | rplacd x y => simp [Op.extending] at hx
+      | nreverse x => simp [Op.extending] at hx
+      | sort d k x => simp [Op.extending] at hx
+      | delete p x => simp [Op.extending] at hx
+  refine ⟨hgrow, ?_⟩
+  intro n r as hc
+  obtain ⟨ext, hext⟩ := hgrow
+  subst hext
+  exact frame_of_append ext hc
 
 /-! ## (A) computes (B): the list an operation returns has the value the value-level model gives -/
 
@@ -627,6 +728,20 @@ theorem nondestructive_refines_value {h h' : Heap} {op : Op} {res : Ref} {xs ys 
         have hys := args_val hcy (hy y rfl)
         refine ⟨(vMapcar2 (carsOf h as) (carsOf h bs)).length, vMapcar2 xs ys, rfl, ?_⟩
         have := allocList_contents_nil h (vMapcar2 (carsOf h as) (carsOf h bs))
+        rw [hr] at this; rw [hxs, hys]; exact this
+  | concat x y =>
+    unfold run at hr
+    cases hcx : chainOf h x with
+    | error e => simp [hcx, bind, Except.bind] at hr
+    | ok as =>
+      cases hcy : chainOf h y with
+      | error e => simp [hcx, hcy, bind, Except.bind] at hr
+      | ok bs =>
+        simp [hcx, hcy, bind, Except.bind] at hr
+        have hxs := args_val hcx (hx x rfl)
+        have hys := args_val hcy (hy y rfl)
+        refine ⟨(carsOf h as ++ carsOf h bs).length, xs ++ ys, rfl, ?_⟩
+        have := allocList_contents_nil h (carsOf h as ++ carsOf h bs)
         rw [hr] at this; rw [hxs, hys]; exact this
   | rplaca x v => simp [Op.destructive] at hnd
   | setNth n x v => simp [Op.destructive] at hnd
@@ -853,6 +968,7 @@ theorem destructive_refines_value {h h' : Heap} {op : Op} {res : Ref} {xs ys : L
   | remove p x => simp [Op.destructive] at hd
   | mapcar f x => simp [Op.destructive] at hd
   | mapcar2 x y => simp [Op.destructive] at hd
+  | concat x y => simp [Op.destructive] at hd
 
 
 /-- **(A) computes (B)**, all operations. -/
@@ -930,6 +1046,14 @@ theorem fresh_result_independent {h h' : Heap} {op : Op} {res : Ref}
       cases hcy : chainOf h y with
       | error e => simp [hcx, hcy, bind, Except.bind] at hr
       | ok bs => simp [hcx, hcy, bind, Except.bind] at hr; exact key _ hr
+  | concat x y =>
+    unfold run at hr
+    cases hcx : chainOf h x with
+    | error e => simp [hcx, bind, Except.bind] at hr
+    | ok as =>
+      cases hcy : chainOf h y with
+      | error e => simp [hcx, hcy, bind, Except.bind] at hr
+      | ok bs => simp [hcx, hcy, bind, Except.bind] at hr; exact key _ hr
   | alias x => simp [Op.freshResult] at hf
   | cons v x => simp [Op.freshResult] at hf
   | listStar v w x => simp [Op.freshResult] at hf
@@ -985,6 +1109,7 @@ theorem tail_result_shares {h h' : Heap} {op : Op} {res : Ref} {x : Ref}
   | remove p x => simp [Op.tailResult] at ht
   | mapcar f x => simp [Op.tailResult] at ht
   | mapcar2 x y => simp [Op.tailResult] at ht
+  | concat x y => simp [Op.tailResult] at ht
   | rplaca x v => simp [Op.tailResult] at ht
   | setNth n x v => simp [Op.tailResult] at ht
   | rplacd x y => simp [Op.tailResult] at ht
@@ -1053,6 +1178,7 @@ theorem ext_result_shares_only_last_arg {h h' : Heap} {op : Op} {res y : Ref} {n
   | remove p x => simp [Op.extending] at hx
   | mapcar f x => simp [Op.extending] at hx
   | mapcar2 x y => simp [Op.extending] at hx
+  | concat x y => simp [Op.extending] at hx
   | rplaca x v => simp [Op.extending] at hx
   | setNth n x v => simp [Op.extending] at hx
   | rplacd x y => simp [Op.extending] at hx
